@@ -40,3 +40,32 @@ Proof. reflexivity. Qed.
 
 Lemma all_ok_ints l : all_ok (map VInt l) = true.
 Proof. induction l; cbn; auto. Qed.
+
+(** values known to be proper ([py_ok v = true] in the context) pass through the strict operations *)
+Lemma py_ret_ok v : py_ok v = true -> py_ret v = VRet v.
+Proof. unfold py_ret. now intros ->. Qed.
+Lemma py_let_ok v k : py_ok v = true -> py_let v k = k v.
+Proof. unfold py_let. now intros ->. Qed.
+Lemma py_strict_ok v k : py_ok v = true -> py_strict v k = k.
+Proof. unfold py_strict. now intros ->. Qed.
+Lemma py_obj_ok c l : all_ok l = true -> py_obj c l = VObj c l.
+Proof. unfold py_obj. now intros ->. Qed.
+Lemma py_tuple_ok l : all_ok l = true -> py_tuple l = VTuple l.
+Proof. unfold py_tuple. now intros ->. Qed.
+Lemma py_list_ok l : all_ok l = true -> py_list l = VList l.
+Proof. unfold py_list. now intros ->. Qed.
+
+Ltac ok_side :=
+  first [ assumption
+        | reflexivity
+        | cbn [all_ok forallb py_ok andb]; repeat match goal with H : py_ok _ = true |- _ => rewrite H end; reflexivity ].
+Ltac pyoks :=
+  repeat (progress (
+    repeat match goal with H : py_ok ?v = true |- _ =>
+      progress (rewrite ?(py_ret_ok v H), ?(py_strict_ok v _ H), ?(py_let_ok v _ H)) end;
+    repeat match goal with
+    | |- context [py_obj ?c ?l] => rewrite (py_obj_ok c l) by ok_side
+    | |- context [py_tuple ?l] => rewrite (py_tuple_ok l) by ok_side
+    | |- context [py_list ?l] => rewrite (py_list_ok l) by ok_side
+    end;
+    pycbn)).
